@@ -149,3 +149,12 @@ def patch(x, owner, attr, repl):
         setattr(owner, attr, repl)
         x.cleanups.append(lambda: setattr(owner, attr, real))
     return real
+
+
+def set_attr(x, owner, attr, value):
+    """Replace a data attribute (a module constant, ...) for the duration of
+    the scenario, in both modes; restored afterwards."""
+    real = getattr(owner, attr)
+    setattr(owner, attr, value)
+    x.cleanups.append(lambda: setattr(owner, attr, real))
+    return real
